@@ -50,7 +50,7 @@ def demo_plan(name):
         txt = open(src).read()
         pkg = re.search(r"^package\s+(\w+)", txt, re.M).group(1)
         m = re.search(r"(?:copy|place|put|copied)[^\n]*?\b((?:cmd/minify|html|css|js|json|svg|xml)/)", txt[:1500])
-        rel = PKGDIR.get(pkg, ".")
+        rel = PKGDIR.get(pkg, PKGDIR.get(pkg[:-5], ".") if pkg.endswith("_test") else ".")
         if pkg in ("minify", "minify_test") and m:
             rel = m.group(1).rstrip("/")
         names = re.findall(r"^func (Test\w+)\(", txt, re.M)
